@@ -1141,3 +1141,79 @@ func rewrite(r *common.Rand, s *x.Schema, c *genCase) (*genCase, []string) {
 	}
 	return &genCase{doc: w.d, vars: w.vars, opName: c.opName, flags: map[string]int{}}, kinds
 }
+
+// ---------------------------------------------------------------- malformed stream
+
+// mutate damages a valid document so that it (mostly) violates a validation rule the passes rely
+// on: same response name with different arguments / different fields, a fragment spread where it
+// cannot apply.  Only the per-pass model correspondence is checked on these.
+func mutate(r *common.Rand, s *x.Schema, c *genCase) (*genCase, string) {
+	d := c.doc.Clone()
+	type site struct {
+		parent string
+		sels   *[]*x.Sel
+		i      int
+	}
+	var fields, comps []site
+	var sets []site
+	walkSelSets(s, d, func(p string, sels *[]*x.Sel) {
+		sets = append(sets, site{p, sels, 0})
+		for i, sel := range *sels {
+			if sel.K == 0 {
+				fields = append(fields, site{p, sels, i})
+				if len(sel.Sels) > 0 {
+					comps = append(comps, site{p, sels, i})
+				}
+			}
+		}
+	})
+	out := &genCase{doc: d, vars: c.vars, opName: c.opName, flags: map[string]int{"malformed": 1}}
+	changeArgs := func(f *x.Sel) {
+		if len(f.Args) > 0 && r.Chance(2, 3) {
+			k := r.Pick(len(f.Args))
+			if r.Chance(1, 2) {
+				f.Args[k].V = &x.Val{K: "int", S: common.PickOf(r, []string{"77", "78"})}
+			} else {
+				f.Args = append(f.Args[:k], f.Args[k+1:]...)
+			}
+		} else {
+			f.Args = append(f.Args, x.Arg{Name: common.PickOf(r, []string{"n", "x", "i", "zz"}), V: &x.Val{K: "int", S: "77"}})
+		}
+	}
+	switch k := r.Pick(4); {
+	case k == 0 && len(comps) > 0:
+		// a composite field selected twice with different arguments
+		st := common.PickOf(r, comps)
+		cl := (*st.sels)[st.i].Clone()
+		changeArgs(cl)
+		pos := st.i + 1 + r.Pick(len(*st.sels)-st.i)
+		ns := append([]*x.Sel(nil), (*st.sels)[:pos]...)
+		ns = append(ns, cl)
+		*st.sels = append(ns, (*st.sels)[pos:]...)
+		return out, "composite_args_differ"
+	case k == 1 && len(fields) > 0:
+		st := common.PickOf(r, fields)
+		cl := (*st.sels)[st.i].Clone()
+		changeArgs(cl)
+		*st.sels = append(*st.sels, cl)
+		return out, "field_args_differ"
+	case k == 2 && len(fields) > 1:
+		// two different fields under one response name
+		a, b := common.PickOf(r, fields), common.PickOf(r, fields)
+		fa, fb := (*a.sels)[a.i], (*b.sels)[b.i]
+		resp := fa.Name
+		if fa.Alias != "" {
+			resp = fa.Alias
+		}
+		fb.Alias = resp
+		return out, "alias_collision"
+	default:
+		if len(d.Frags) > 0 && len(sets) > 0 {
+			st := common.PickOf(r, sets)
+			f := common.PickOf(r, d.Frags)
+			*st.sels = append(*st.sels, &x.Sel{K: 2, Name: f.Name})
+			return out, "spread_anywhere"
+		}
+	}
+	return nil, ""
+}
